@@ -532,6 +532,9 @@ def run_shard(spec, acc):
 def replay(spec, acc):
     api = _api()
     case = spec['case']
+    if 'deep' in case:
+        run_deep(acc, api)
+        return
     if 'model' not in case:
         acc.note_inconclusive('finding-level replay entry')
         return
